@@ -280,6 +280,14 @@ impl<L: Language, N: Analysis<L>> EGraph<L, N> {
                 #[allow(unused)]
                 let (a, b, proof) = self.pc_congruence(&pc1, &pc2);
 
+                // If the e-node has a slot that is redundant in its class, a variant can move that slot to the
+                // place of a class slot: then `a` and `b` are over different slots, and the equation does not
+                // state a symmetry but that a slot of the class is redundant.
+                if a.slots() != b.slots() {
+                    self.union_internal(&a, &b, proof);
+                    return self.determine_self_symmetries(src_id);
+                }
+
                 // or is it the opposite direction? (flip a with b)
                 let perm = a.m.compose(&b.m.inverse());
 
